@@ -135,6 +135,34 @@ class Interp:
             elif isinstance(st, ast.If):
                 s._scan_module(rel, st.body, g)
 
+    # ------------------------------------------------------------------ classes
+    def class_mro(s, cls_key):
+        out = []
+        stack = [cls_key]
+        while stack:
+            k = stack.pop(0)
+            if k in out or not s.repo.has(k): continue
+            node = s.repo.index[k]
+            if not isinstance(node, ast.ClassDef): continue
+            out.append(k)
+            rel = k.split("::")[0]
+            for b in node.bases:
+                nm = ast.unparse(b)
+                cand = f"{rel}::{nm}"
+                if s.repo.has(cand): stack.append(cand)
+                else:
+                    g = s.module_globals(rel).get(nm)
+                    if isinstance(g, Func): stack.append(g.key)
+        return out
+
+    def find_method(s, cls_key, name, after=None):
+        mro = s.class_mro(cls_key)
+        if after is not None and after in mro: mro = mro[mro.index(after) + 1:]
+        for k in mro:
+            m = f"{k}.{name}"
+            if s.repo.has(m) and isinstance(s.repo.index[m], ast.FunctionDef): return m
+        return None
+
     # ------------------------------------------------------------------ function calls
     def call_key(s, key, args, kwargs=None, st=None):
         fn = Func(key, s.repo.get(key))
@@ -169,8 +197,14 @@ class Interp:
         node = fn.node
         if isinstance(node, ast.ClassDef):
             h = s.hooks.get("construct")
-            if h: return h(s, fn, args, kwargs, st, callnode)
-            return Opaque(f"construct {fn.key}")
+            if h:
+                r = h(s, fn, args, kwargs, st, callnode)
+                if r is not NotImplemented: return r
+            obj = Obj(fn.key)
+            init = s.find_method(fn.key, "__init__")
+            if init is not None:
+                s.call_func(Func(init, s.repo.get(init)), [obj] + list(args), kwargs, st, callnode)
+            return obj
         h = s.hooks.get("call")
         if h:
             r = h(s, fn, args, kwargs, st, callnode)
